@@ -1,9 +1,13 @@
+import VotelibDriver.Loop
 import VotelibDriver.C09
 import VotelibDriver.C01
+import VotelibDriver.C02
+import VotelibDriver.C05
 open Lean
 namespace VL.Drv.C08
+/-- the C08 correspondence re-uses the handlers of the properties owning the models -/
+def handlers : List Handler := [C09.handle, C01.handle, C02.handle, C05.handle]
+
 def handle (op : String) (j : Json) : Option (Except String Json) :=
-  match C09.handle op j with
-  | some r => some r
-  | none => C01.handle op j
+  handlers.firstM (fun (h : Handler) => h op j)
 end VL.Drv.C08
